@@ -140,9 +140,10 @@ def evaluate(P, ctx, cases):
     return [{"case": c, "obs": o, "agrees": a, "prop_ok": p} for c, o, (a, p) in zip(cases, obs, rs)]
 
 
-def shrink(P, ctx, case, pred, budget_s=120):
+def shrink(P, ctx, case, pred, budget_s=120, first_result=None):
     """Greedy batched delta-debugging: pred(result) says the candidate still fails."""
     best = case
+    best_result = first_result
     t_end = time.time() + budget_s
     rounds = 0
     while time.time() < t_end and rounds < 12:
@@ -161,8 +162,15 @@ def shrink(P, ctx, case, pred, budget_s=120):
         if len(json.dumps(failing[0]["case"])) >= len(json.dumps(best)):
             break
         best = failing[0]["case"]
-    rs = evaluate(P, ctx, [best])
-    return rs[0]
+        best_result = failing[0]
+    # re-evaluate the minimal case; a flaky re-run must not replace a result that did fail
+    try:
+        rs = evaluate(P, ctx, [best])
+        if pred(rs[0]):
+            return rs[0]
+    except Exception:
+        pass
+    return best_result
 
 
 def violation(P, replay_obj, suffix=""):
@@ -272,7 +280,8 @@ def run_check(P, tier, seed):
                 violations += 1
                 continue
             try:
-                m = shrink(P, ctx, r["case"], lambda x: not x["prop_ok"] and not (P.known(x["case"], x["obs"]) in kids))
+                m = shrink(P, ctx, r["case"], lambda x: not x["prop_ok"] and not (P.known(x["case"], x["obs"]) in kids),
+                           first_result=r)
             except Exception:
                 m = r
             key = vlib.canon_hash(m["case"])
@@ -323,7 +332,8 @@ def run_check(P, tier, seed):
         if not found:
             if bad_agree:
                 try:
-                    m = shrink(P, ctx, bad_agree[0]["case"], lambda x: not x["agrees"], budget_s=60)
+                    m = shrink(P, ctx, bad_agree[0]["case"], lambda x: not x["agrees"], budget_s=60,
+                               first_result=bad_agree[0])
                 except Exception:
                     m = bad_agree[0]
                 obj = {"property": P.id, "broken": "correspondence",
